@@ -154,7 +154,7 @@ fn key_schedule_structure(key: &[u8]) {
             b += 1;
         }
     }
-    kani::cover!(true);
+    // no kani::cover! here: the harness has no assumptions (see registry no_cover)
     core::mem::forget(bf);
 }
 
@@ -316,7 +316,6 @@ fn c11_published_vector_zero_key() {
     let l = u32::from_le_bytes([ct[0], ct[1], ct[2], ct[3]]);
     let r = u32::from_le_bytes([ct[4], ct[5], ct[6], ct[7]]);
     assert_eq!((l, r), (0x4EF99745, 0x6198DD78));
-    kani::cover!(true);
     core::mem::forget(bf);
 }
 
